@@ -219,21 +219,23 @@ type Spec struct {
 }
 
 type World struct {
-	Spec   Spec
-	Cfg    *fosite.Config
-	Mem    *storage.MemoryStore // always present: clients/users/keys live here
-	Tx     *TxStore             // non-nil when Spec.Store == "tx"
-	W      *Wrap
-	P      fosite.OAuth2Provider
-	Key    interface{}
-	DevStr *rfc8628.DefaultDeviceStrategy
-	Core   oauth2.CoreStrategy
-	HMAC   *oauth2.HMACSHAStrategy
+	Spec Spec
+	Cfg  *fosite.Config
+	// BaseCtx, when set, supplies the context of every request made through the World's endpoint methods.
+	BaseCtx func() context.Context
+	Mem     *storage.MemoryStore // always present: clients/users/keys live here
+	Tx      *TxStore             // non-nil when Spec.Store == "tx"
+	W       *Wrap
+	P       fosite.OAuth2Provider
+	Key     interface{}
+	DevStr  *rfc8628.DefaultDeviceStrategy
+	Core    oauth2.CoreStrategy
+	HMAC    *oauth2.HMACSHAStrategy
 	// Docs served to Config.HTTPClient (OIDC request_uri) and the JWKS fetcher.
 	Docs map[string]string
 	// DocErr: URLs whose fetch fails at transport level with the given error.
 	DocErr map[string]error
-	JWKS map[string]*jose.JSONWebKeySet
+	JWKS   map[string]*jose.JSONWebKeySet
 	// Secrets in cleartext per client id (the store holds hashes).
 	Secrets map[string]string
 	// Calls recorded since the last ResetCalls (when Record is on).
@@ -402,6 +404,15 @@ func (w *World) Sess(subject string) fosite.Session {
 // NoOIDC reports whether the sessions of this world cannot carry ID-token claims (fosite's oauth2.JWTSession).
 func (w *World) NoOIDC() bool { return w.Spec.FositeSession && w.Spec.JWTAccess }
 
+// ctx is the context of the next request: BaseCtx() when the test installed one (a request whose caller has gone away,
+// a per-request deadline), the background context otherwise.
+func (w *World) ctx() context.Context {
+	if w.BaseCtx != nil {
+		return w.BaseCtx()
+	}
+	return context.Background()
+}
+
 func (w *World) ResetCalls() { w.Calls = nil; w.W.ResetSeq() }
 
 // HashSecret hashes a client secret with the configured hasher.
@@ -517,7 +528,7 @@ func (w *World) Token(form url.Values, a Auth, o TokenOpts) (res *TokenResult) {
 	res = &TokenResult{}
 	r := postReq("/oauth2/token", form, a)
 	rw := httptest.NewRecorder()
-	ctx := context.Background()
+	ctx := w.ctx()
 	sess := o.Session
 	if sess == nil {
 		sess = w.Sess("")
@@ -681,7 +692,7 @@ func (w *World) AuthorizeRaw(method, rawQuery string, form url.Values, c Consent
 		r = httptest.NewRequest("GET", target, nil)
 	}
 	rw := httptest.NewRecorder()
-	ctx := context.Background()
+	ctx := w.ctx()
 	ar, err := w.P.NewAuthorizeRequest(ctx, r)
 	if err != nil {
 		res.Err = errInfo(err)
@@ -751,7 +762,7 @@ func (w *World) PAR(form url.Values, a Auth) *PARResult {
 	res := &PARResult{}
 	r := postReq("/oauth2/par", form, a)
 	rw := httptest.NewRecorder()
-	ctx := context.Background()
+	ctx := w.ctx()
 	func() {
 		ar, err := w.P.NewPushedAuthorizeRequest(ctx, r)
 		if err != nil {
@@ -793,7 +804,7 @@ func (w *World) Revoke(form url.Values, a Auth) *RevokeResult {
 	res := &RevokeResult{}
 	r := postReq("/oauth2/revoke", form, a)
 	rw := httptest.NewRecorder()
-	ctx := context.Background()
+	ctx := w.ctx()
 	err := w.P.NewRevocationRequest(ctx, r)
 	res.Err = errInfo(err)
 	w.P.WriteRevocationResponse(ctx, rw, err)
@@ -818,7 +829,7 @@ func (w *World) IntrospectEndpoint(form url.Values, a Auth) *IntroResult {
 	res := &IntroResult{}
 	r := postReq("/oauth2/introspect", form, a)
 	rw := httptest.NewRecorder()
-	ctx := context.Background()
+	ctx := w.ctx()
 	ir, err := w.P.NewIntrospectionRequest(ctx, r, NewSess(""))
 	if err != nil {
 		res.Err = errInfo(err)
@@ -884,7 +895,7 @@ func (w *World) DeviceAuth(form url.Values, a Auth, c Consent) *DeviceResult {
 	res := &DeviceResult{}
 	r := postReq("/oauth2/device/auth", form, a)
 	rw := httptest.NewRecorder()
-	ctx := context.Background()
+	ctx := w.ctx()
 	func() {
 		dr, err := w.P.NewDeviceRequest(ctx, r)
 		if err != nil {
@@ -929,7 +940,7 @@ func (w *World) DeviceAuth(form url.Values, a Auth, c Consent) *DeviceResult {
 // device-code signature (as integration/authorize_device_grant_request_test.go
 // does). Returns false when the user code is unknown or expired.
 func (w *World) DeviceDecide(userCode string, accept bool, c Consent, deviceCode ...string) bool {
-	ctx := context.Background()
+	ctx := w.ctx()
 	usig, err := w.DevStr.UserCodeSignature(ctx, userCode)
 	if err != nil {
 		return false
@@ -1034,7 +1045,7 @@ func (w *World) AuthorizeDeny(q url.Values) *AuthzResult {
 	res := &AuthzResult{}
 	r := httptest.NewRequest("GET", "https://as.example/oauth2/auth?"+q.Encode(), nil)
 	rw := httptest.NewRecorder()
-	ctx := context.Background()
+	ctx := w.ctx()
 	ar, err := w.P.NewAuthorizeRequest(ctx, r)
 	if err != nil {
 		res.Err = errInfo(err)
